@@ -235,6 +235,8 @@ func cmdCheck(args []string) {
 	var bounds []string
 	replayDir := filepath.Join(*vdir, "replays", *prop)
 	replayed := 0
+	unreplayed := 0
+	const maxReplays = 8
 	knownSeen := map[string]bool{}
 
 	// pass 1: run everything
@@ -349,7 +351,12 @@ func cmdCheck(args []string) {
 					lines = append(lines, fmt.Sprintf("INCONCLUSIVE property=%s harness=%s: a stated bound is exceeded (%s)", *prop, s.Name, o.Name))
 					continue
 				}
-				// replay natively
+				// replay natively (at most maxReplays per run: further violated obligations of a tree that is
+				// already known to violate the property are only counted)
+				if violations >= maxReplays {
+					unreplayed++
+					continue
+				}
 				os.MkdirAll(replayDir, 0o755)
 				replayed++
 				doc := &ReplayDoc{Property: *prop, Harness: s.Name, Pkg: s.Pkg, Assertion: o.Name, Kind: o.Kind, Values: o.Model}
@@ -536,6 +543,9 @@ func cmdCheck(args []string) {
 	os.MkdirAll(filepath.Join(*vdir, ".work"), 0o755)
 	db, _ := json.MarshalIndent(reports, "", " ")
 	os.WriteFile(filepath.Join(*vdir, ".work", *prop+"-"+*tier+"-detail.json"), db, 0o644)
+	if unreplayed > 0 {
+		fmt.Printf("NOTE property=%s: %d further obligations have solver counterexamples that were not replayed (replay limit %d reached)\n", *prop, unreplayed, maxReplays)
+	}
 	fmt.Printf("SUMMARY property=%s tier=%s obligations=%d discharged=%d violations=%d inconclusive=%d queries=%d wall=%.1fs\n",
 		*prop, *tier, obligations, discharged, violations, inconclusive, evaluations, wall)
 	switch {
